@@ -48,6 +48,9 @@ type Case struct {
 	Skip     bool   `json:"skip"`
 	Auth     string `json:"auth"`  // none | pass | pass-read | fail | fail-read
 	Style    string `json:"style"` // server | client
+	// Interleave: between the validation of this request and the reading of its forwarded body, another
+	// request (same shape, other content) is validated against the same document
+	Interleave bool `json:"interleave,omitempty"`
 }
 
 func TestMain(m *testing.M) { h.Main(m, "C13") }
@@ -349,6 +352,20 @@ func check(c Case) (o h.Outcome) {
 	if !o.Guarded("ValidateRequest", func() { verr = openapi3filter.ValidateRequest(context.Background(), in) }) {
 		return
 	}
+	if c.Interleave && c.Body != "" {
+		if bm, isObj := jv.Parse(c.Body).(map[string]any); isObj {
+			other := jv.Clone(bm).(map[string]any)
+			other["id"] = 987654321.0
+			cb := c
+			cb.Body = jv.Canon(other)
+			reqB := newRequest(cb)
+			inB := &openapi3filter.RequestValidationInput{Request: reqB, Route: route, Options: &openapi3filter.Options{SkipSettingDefaults: c.Skip, AuthenticationFunc: openapi3filter.NoopAuthenticationFunc}}
+			if !o.Guarded("ValidateRequest(interleaved)", func() { _ = openapi3filter.ValidateRequest(context.Background(), inB) }) {
+				return
+			}
+			o.Class("interleaved")
+		}
+	}
 	docAfter, _ := json.Marshal(doc)
 	if !bytes.Equal(docBefore, docAfter) {
 		o.Fail("document-mutated", "validating a request changed the shared document:\nbefore=%s\nafter=%s", firstDiffAround(docBefore, docAfter), "")
@@ -639,5 +656,6 @@ func gen(t *rapid.T) Case {
 	c.Skip = rapid.IntRange(0, 3).Draw(t, "skip") == 0
 	c.Auth = rapid.SampledFrom([]string{"none", "none", "pass", "pass-read", "fail", "fail-read", "pass-undeclared", "fail-undeclared-read"}).Draw(t, "auth")
 	c.Style = rapid.SampledFrom([]string{"server", "client"}).Draw(t, "style")
+	c.Interleave = rapid.IntRange(0, 2).Draw(t, "interleave") == 0
 	return c
 }
